@@ -20,7 +20,7 @@ PROPS = {
                 assumptions=[HEADROOM, "handles passed in were returned by a creation path of the same world (`legit`); Rust runs Drop::drop once for an unbuilt builder"]),
     'C17': dict(units=['world'], witness='alloc',
                 assumptions=[HEADROOM]),
-    'C03': dict(units=['storage'], witness=None, assumptions=[HEADROOM] + STORAGE_ASSUME),
+    'C03': dict(units=['join'], witness=None, assumptions=[HEADROOM] + STORAGE_ASSUME),
     'C04': dict(units=['storage', 'flagged'], witness=None, assumptions=[HEADROOM] + STORAGE_ASSUME),
     'C12': dict(units=['flagged', 'flagged_ec', 'storage'], witness=None,
                 assumptions=STORAGE_ASSUME + ["shrev::EventChannel::single_write appends one event and a reader registered earlier receives appended events in order (assumed contract on shrev)",
@@ -28,6 +28,12 @@ PROPS = {
                                               "bulk clear() emits nothing by design (stated in the property)",
                                               "both cfg variants of the storage-event-control feature are extracted and verified (units flagged / flagged_ec)"]),
     'C13': dict(units=['storage'], witness=None, assumptions=[HEADROOM] + STORAGE_ASSUME + ["parallel / SharedGetOnly variants are not covered (N3)", "join-membership of restricted storages is part of C06's join unit"]),
+    'C06': dict(units=['join'], witness=None,
+                assumptions=[HEADROOM] + STORAGE_ASSUME + [
+                    "REDUCED: hibitset's bit-set family (BitSetLike::iter ascending and duplicate-free, BitSetAnd/Not/All/Or views, layered skip logic) is an assumed contract: the 'indices straddling layer boundaries' part of the quantifier lives entirely in that dependency",
+                    "REDUCED: tuple members (define_open!) and BitAnd for arities > 1 (bitset_and!) and the bit-set members (define_bit_join!) are macro-generated and not under contract; the one-member BitAnd and every non-macro member are",
+                    "N8: LendJoin's GAT Type<'next> is collapsed to a plain associated type; the `&mut Storage` lending member is therefore checked as free functions with the same clauses",
+                    "JoinLendIter::for_each (closure capturing &mut) and the `&mut Storage` non-lending Join member (SharedGetMutOnly raw sharing) are not under contract"]),
     'C05': dict(units=['world'], witness='alloc',
                 assumptions=[HEADROOM, "WorldExt::delete_components is an ASSUMED contract (its body iterates shred's MetaTable<dyn AnyStorage>): it removes exactly the given indices from every listed storage and touches nothing else",
                              "World accessors (entities_mut, write_resource) are stubs with the documented shred behaviour; LazyUpdate::maintain is unconstrained"]),
@@ -36,6 +42,10 @@ PROPS = {
 TB = "Trusted: prelude stubs for hibitset / NonZeroI32 / atomics / Vec::extend (assumed contracts), N3 sequentialisation, headroom preconditions, Verus+Z3, the vx extractor's closed list of normalisations (each application recorded in the evidence)."
 
 MANIFEST_TEXT = {
+    'C06': dict(
+        level="Reduced unbounded proof: a trait-level contract for Join/LendJoin (open returns the member's mask and makes every member index fetchable; get returns the member's item and keeps other indices fetchable) against which (a) the real generic iterators JoinIter::{new,next} and JoinLendIter::{new,next,get,get_unchecked} are verified: keys are the ascending duplicate-free enumeration of the joined mask, one get per key, lookup by entity succeeds exactly for live members; and (b) the real member impls (&Storage, AntiStorage, MaybeJoin, Drain, &EntitiesRes, one-tuple BitAnd) are verified as trait impls, &mut Storage lending as free functions. Bit-set internals and macro-generated tuple impls are outside.",
+        design_ref='DESIGN.md §5 C06', note=TB + ' hibitset iteration order/combination assumed; macro-generated impls not covered.',
+        technique='Verus: generic iterator code and real trait impls checked against a trait-level Join contract'),
     'C12': dict(
         level="Unbounded proof: FlaggedStorage's real `impl UnprotectedStorage` is verified by Verus against the trait-level contract extended with an event effect (insert appends exactly Inserted(id), remove and the default drop exactly Removed(id), get_mut exactly Modified(id), get/clean nothing; nothing at all while emission is off — both cfg variants of storage-event-control); DerefFlaggedStorage's methods likewise, with get_mut emitting nothing and FlaggedAccessMut::deref_mut exactly one Modified per call. The generic layer (unit storage) then shows Storage::insert/remove/get_mut, entry removal, drain and MaskedStorage::drop produce exactly the corresponding effect once, and reads none.",
         design_ref='DESIGN.md §5 C12', note=TB + ' shrev channel stub; shared_get_mut excluded.',
